@@ -2,7 +2,7 @@
    visitor configurations what the real `duke::read_class_multi` delivered to the harness'
    recording visitors and where the stream stood after every read.  The model reads the same
    bytes with the generated tables. *)
-From FB Require Export C17.Model C17.AttrTable C17.Struct C17.Replay C17.AcceptTable C17.Values C17.ValuesGen Base.Run.
+From FB Require Export C17.Model C17.AttrTable C17.Struct C17.Replay C17.AcceptTable C17.Values C17.Values2 C17.ValuesGen Base.Run.
 
 (* ---------- compact notation for the case files ----------
    Coq parses a numeral of type N through its number notation (slow: ~0.1 ms each), but a
@@ -178,9 +178,10 @@ Definition resolver_of (p : pool) (rp : list (N * (N * bytes))) : resolver :=
        (fun ptag i => match assocN i rp with Some (tag, bs) => if tag =? ptag then be bs else NOVAL | None => NOVAL end)
        (ref_of p rp).
 (* the pools of the class at the head of the stream *)
-Record pools := mkPools { pp_utf8 : pool; pp_rs : resolver }.
+(* pp_tag: the tag of the pool entry at an index (0: there is none) — the kind of the entry selects the variant of a ConstantValue *)
+Record pools := mkPools { pp_utf8 : pool; pp_rs : resolver; pp_tag : N -> N }.
 Definition value_of (pp : pools) (loc : N) (name : str) (body : bytes) : option (list N) :=
-  attr_value xtable_gen vnames_gen (pp_rs pp) loc name false body.
+  attr_value2 xtable_gen vnames_gen vnames2_gen (pp_rs pp) (pp_tag pp) loc name false body.
 
 Definition LVT : str := [76;111;99;97;108;86;97;114;105;97;98;108;101;84;97;98;108;101].             (* LocalVariableTable *)
 Definition LVTT : str := [76;111;99;97;108;86;97;114;105;97;98;108;101;84;121;112;101;84;97;98;108;101]. (* LocalVariableTypeTable *)
@@ -311,7 +312,8 @@ Definition norm (e : ev) : ev :=
 Definition trace_eqb (pp : pools) (a b : option (list ev)) : bool := opt_eqb (list_eqb (ev_eqb pp 0)) (option_map (map norm) a) b.
 Definition pool_at (s : bytes) : pools :=
   let p := match read_header s with Ok (h, _) => h_pool h | Err => [] end in
-  mkPools p (resolver_of p (rawpool_at s)).
+  let rp := rawpool_at s in
+  mkPools p (resolver_of p rp) (fun i => match assocN i rp with Some (tag, _) => tag | None => 0 end).
 
 (* one configuration: a visitor per successive read, and per read what the implementation
    answered: Ok (trace, stream position after the read) — the list stops after the first Err *)
